@@ -14,6 +14,10 @@ CLAIMED = {
          'idiv = truncated quotient, mod = remainder with the dividend\'s sign, a = (a idiv b)*b + (a mod b) for all finite operands of all four numeric types (exact values m*10^e, unbounded), division-by-zero table, fn:round = floor(x+1/2), floor/ceiling, round-half-to-even characterisation: proved for every input. The int kernels of mod/idiv are regenerated from /repo on every run, so an edit there breaks a proof obligation. Partial: finite double + - * div are hardware operations (not modelled); sign of zero from floor/ceiling and xs:float result type of div-by-zero are known findings.',
          'Trusted: Coq kernel; py2coq translator (Python int=Z, //=Z.div, %=Z.modulo); modelled-not-verified externals: Decimal // and % truncate, math.fmod exact, float // exact floor for |q|<2^52, Decimal.quantize, int->float / Decimal->float promotion done by the harness with Python float(). No axioms.',
          'DESIGN.md §6 C06'),
+ 'C09': ('Coq proof on strings as code-point lists (refinement of the slicing/find/translate-table algorithms to position/occurrence specifications) + correspondence under XPath 1.0/2.0 parsers, libxml2 cross-check',
+         'fn:substring = positions round(start) <= p < round(start)+round(length) with half-up rounding and IEEE INF/NaN rules (all strings, all rational/special arguments); substring-before/after/contains/starts-with/ends-with characterised by first occurrence and concat law; translate = first-occurrence specification; normalize-space token theorem for any whitespace class; compare is a total order; regenerated is_xml_codepoint = XML Char production. Partial: upper/lower-case, non-codepoint collations and URI escaping are not modelled; normalize-space whitespace class is a known finding.',
+         'Trusted: Coq kernel; py2coq translator; Python str primitives as mirrored in C09/Model.v (modelled, validated by correspondence only); round_number modelled by C06.round_md. No axioms.',
+         'DESIGN.md §6 C09'),
 }
 
 NOT_YET = {}
